@@ -15,7 +15,7 @@ ID = 'C20'
 MANIFEST = {
     'engine': 'symx',
     'text': 'Bounded symbolic exploration of the real generator source on the real numpy with every random draw decided by the solver (RNG stub) and the index selections, class counts, class distributions (as float, list and ndarray), noise levels, label vectors and down-sampling sizes chosen by the solver: duplicates are exact copies and the self-description lists exactly the appended column indices; combinations equal the stated function and record the appended index; correlated features only: shape and recorded indices; quantile labels are a monotone step function of the decision value with the requested class sizes whenever the cumulative proportions hit whole numbers of tie-free samples; categorical noise changes at most floor(p*n) cells per feature and only to values of that feature\'s own value set, missing-type noise writes exactly floor(p*n) markers per feature, both leave the input untouched; down-sampling returns exactly n original rows of every class and refuses n above the minority size.',
-    'note': 'The Pearson-correlation clause of generate_correlated is NOT covered: the construction is a rational function with square roots in >= 7 real unknowns already at n = 3; z3 4.8/5.1 and cvc5 give no answer within 60 s on the hand-simplified identity (DESIGN 2.7). The k-means label path (sklearn FFI) is outside. <=5 samples x 3 features, <=3 classes; missing-type noise is exercised with an explicit integer marker.',
+    'note': 'The Pearson-correlation clause of generate_correlated is NOT proved: it is only evaluated numerically (tolerance 1e-6) on every 4-sample source over {0,1,2} paired with a second column (condition pearson); a symbolic treatment is out of reach: the construction is a rational function with square roots in >= 7 real unknowns already at n = 3; z3 4.8/5.1 and cvc5 give no answer within 60 s on the hand-simplified identity (DESIGN 2.7). The k-means label path (sklearn FFI) is outside. <=5 samples x 3 features, <=3 classes; missing-type noise is exercised with an explicit integer marker.',
     'technique': 'solver-driven bounded exploration of the real Python code on real numpy with a nondeterministic RNG stub (every draw and every configuration choice a solver decision; coverage certificate)',
 }
 
@@ -132,6 +132,42 @@ def dec_first(x):
     return x[:, 0]
 
 
+def check_labels_many(cc, n):
+    """n classes, uniform scalar p, 2n tie-free samples: labels within 0..n-1, monotone, two samples per class"""
+    N = 2 * n
+    m = next(k for k in range(7, 7 + N + 2) if math.gcd(k, N) == 1)
+    dv = [float((i * m) % N) + 0.5 for i in range(N)]          # a permutation of N distinct values
+    X = np.array([[v] for v in dv], dtype=float)
+    y = np.asarray(cc.generate_labels(X, n=n, p=1.0 / n, decision_function=dec_first))
+    probs = []
+    if y.min() < 0 or y.max() > n - 1:
+        probs.append(f'{n} classes requested, labels range over {int(y.min())}..{int(y.max())}')
+    order = np.argsort(dv)
+    if any(y[order[i]] > y[order[i + 1]] for i in range(N - 1)):
+        probs.append('labels are not monotone in the decision value')
+    sizes = [int((y == k).sum()) for k in range(n)]
+    if not probs and sizes != [2] * n:
+        probs.append(f'class sizes {sizes} for a uniform distribution over {N} tie-free samples (2 per class expected)')
+    return probs
+
+
+def check_pearson(cc, cols, r):
+    """numeric evaluation of the correlation clause on a small integer data set (NOT a proof over the reals): each generated column
+    has Pearson correlation r with its (non-constant) source"""
+    X = np.array(cols, dtype=float).T
+    sel = list(range(X.shape[1]))
+    R = cc.generate_correlated(X, sel if len(sel) > 1 else sel[0], r=r)
+    probs = []
+    for k, j in enumerate(sel):
+        src = X[:, j]
+        if len(set(src.tolist())) < 2:
+            continue
+        c = float(np.corrcoef(src, R[:, X.shape[1] + k])[0, 1])
+        if not abs(c - r) <= 1e-6:
+            probs.append(f'generated column for source {src.tolist()} has Pearson correlation {c:.6f} with it, requested {r}')
+    return probs
+
+
 def check_noise(cc, X, y, p, typ):
     Xb = X.copy()
     n = X.shape[0]
@@ -183,6 +219,9 @@ def check_down(cc, X, y, n):
 
 def jobs(tier):
     out = []
+    out.append({'cond': 'labels-many', 'pins': {}, 'weight': 100, 'label': 'labels-many'})
+    for ri in range(3):
+        out.append({'cond': 'pearson', 'pins': {'b': ri}, 'weight': 800, 'label': f'pearson r={[0.8, -0.5, 0.3][ri]}'})
     for c in ('duplicates', 'combinations', 'correlated', 'labels2', 'labels3', 'noise-categorical', 'noise-missing', 'downsample'):
         if c.startswith('noise'):
             for pi in range(len(NOISE_P)):
@@ -228,6 +267,18 @@ def run_job(job):
                 kind = ['linear', 'nonlinear', 'xor'][int(SInt(st['b'], 0, 3)) % 3]
                 w['kind'] = kind
                 probs = check_comb(cc, X, sel, kind)
+        elif cond == 'labels-many':
+            n = 2 + int(SInt(st['y'][0], 0, 2)) + 3 * int(SInt(st['p'], 0, 7)) + 24 * int(SInt(st['b'], 0, 3)) % 48
+            n = 2 + (int(SInt(st['a'], 0, 7)) * 8 + int(SInt(st['p'], 0, 7))) % 62
+            w['n'] = n
+            probs = check_labels_many(cc, n)
+        elif cond == 'pearson':
+            r = [0.8, -0.5, 0.3][int(SInt(st['b'], 0, 3)) % 3]
+            vals = [int(SInt(v, 0, 2)) for v in st['y'][:4]]
+            second = [[5, 9, 2, 7], [0, 0, 1, 3]][int(SInt(st['a'], 0, 7)) % 2]
+            cols = [vals, second]
+            w.update({'r': r, 'cols': cols})
+            probs = check_pearson(cc, cols, r)
         elif cond in ('labels2', 'labels3'):
             perm = int(SInt(st['a'], 0, 7))
             dv = [[3.0, 1.0, 4.0, 2.0], [1.0, 2.0, 3.0, 4.0], [4.0, 3.0, 2.0, 1.0], [2.5, 7.0, -1.0, 0.0], [1.0, 1.0, 2.0, 2.0], [5.0, 5.0, 5.0, 1.0], [0.0, 10.0, 20.0, 30.0], [2.0, 1.0, 2.0, 3.0]][perm]
@@ -278,6 +329,14 @@ def replay(w):
             cc = CC(seed=1)
             sel = SELS[w['sel']]
             probs = check_dup(cc, X, sel) if c == 'duplicates' else (check_corr(cc, X, sel) if c == 'correlated' else check_comb(cc, X, sel, w['kind']))
+        elif c == 'labels-many':
+            probs = check_labels_many(CC(seed=1), w['n'])
+        elif c == 'pearson':
+            probs = []
+            for seed in range(5):
+                probs = check_pearson(CC(seed=seed), w['cols'], w['r'])
+                if probs:
+                    break
         elif c.startswith('labels'):
             cc = CC(seed=1)
             p = w['p']
